@@ -5,7 +5,7 @@ PROP = {
     "coq_targets": ["theories/Isa/C01Check", "theories/Isa/X86Proofs"],
     "n": {"quick": 2400, "thorough": 40000},
     "theorems": ["reg_get_set_correct", "reg_set_prefix_refuted", "of_add_correct", "of_sub_correct", "cf_sub_correct",
-                 "cf_add_correct", "sf_correct", "set_zf_den", "set_sf_den", "set_cf_den", "set_of_den", "lift_mov_reg_reg_correct", "add_reg_ops_correct", "sub_reg_ops_correct", "cmp_reg_ops_correct", "logic_reg_ops_correct", "incdec_reg_ops_correct"],
+                 "cf_add_correct", "sf_correct", "set_zf_den", "set_sf_den", "set_cf_den", "set_of_den", "lift_mov_reg_reg_correct", "add_reg_ops_correct", "sub_reg_ops_correct", "cmp_reg_ops_correct", "logic_reg_ops_correct", "incdec_reg_ops_correct", "il_run_one_block"],
     "rule": "instruction encodings enumerated from the opcode tables of harness/src/bin/c01.rs (mnemonic x operand size 8/16/32/64(/128) x "
             "register/memory/immediate forms x legacy high-byte registers x rep/repne x both modes; about 5 000 forms), visited in a "
             "seed-dependent permutation, wrapping around with fresh operands/states when n exceeds the table; each encoding with 6 "
@@ -20,8 +20,9 @@ PROP = {
                     "results the SDM calls undefined are not compared; PF/AF are not modelled by the lifter and not compared (PF is an input to jp/setp/cmovp)",
                     "32-bit mode has no processor oracle on this host: x86 forms are compared with Isa/X86.v only (the same spec functions are validated through the amd64 encodings)"],
     "partial": [
-        "theorem + syntactic tie (all states): the register access layer X86Register::get/set (all sub-register kinds, both tables) and the flag helpers set_zf/set_sf/set_of/set_cf; "
-        "syntactic tie (mirror = dumped IL, every run) for mov/add/sub/cmp/and/or/xor/inc/dec with register destination and register/immediate source; no per-form end-to-end theorem (run of the mirror = X86.step) is proved yet",
+        "theorem + syntactic tie (all states): the register access layer X86Register::get/set (all sub-register kinds, both tables), the flag helpers set_zf/set_sf/set_of/set_cf, "
+        "and, at the level of the emitted operation list run by Sem.exec_op, mov/add/sub/cmp/and/or/xor with register destination and register/immediate source and inc/dec register "
+        "(result, ZF/SF/OF/CF = X86.alu/X86.un, memory unchanged); not proved: the glue from the operation list to X86Run.run_instr/X86.step as a whole, memory operands, push/pop, all other builders",
         "processor + specification comparison on sampled states only ([D]): every other accepted form of the core classes (ALU incl. adc/sbb/test/neg/not, all memory forms, movzx/movsx/movsxd/lea/xchg/push/pop/call/ret/leave, jmp/jcc/setcc/cmovcc/loop/jecxz, shl/shr/sar/rol/ror, mul/imul/div/idiv, cbw..cqo, bt/bts/btr/btc, bsf/bsr, movs/cmps/stos/lods/scas with rep, clc/stc/cmc/cld/std)",
         "processor comparison only, no Coq specification: shld/shrd, cmpxchg, xadd, bswap, sahf, SSE subset (mov*ps/pd/dq*, movq/movd, pxor/por/paddq/psubq/psubb/pcmpeq*/pminub/punpckl*/pshufd/pslldq/psrldq/pmovmskb, movhpd/movlpd)",
         "accepted by the lifter but not generated (no coverage): segment-override forms (fs/gs), 16-bit addressing in 32-bit mode, moffs forms of mov, far control transfers, int/syscall/sysenter/hlt/cli/sti/ud2/pause/prefetch (privileged or no architectural state change), lock prefixes, cmpxchg8b/16b is not accepted",
@@ -30,7 +31,7 @@ PROP = {
     "level_text": "Per run, inside the Coq kernel: every generated encoding is lifted by the real lifter, its IL is run in the reference IL semantics from 6 machine states and compared "
                   "with the host processor's result for the same bytes (amd64) and with the Coq ISA specification X86.step (both modes); a sort error at lift or run time is a failure. "
                   "Unbounded Coq theorems for the shared helper layer (sub-register get/set, flag formulas) for all values; syntactic tie of a Gallina mirror to the dumped IL for the "
-                  "register/immediate forms of nine mnemonics. No all-states theorem per instruction form.",
+                  "register/immediate forms of nine mnemonics, and all-states theorems for those forms at the level of the emitted operation list.",
     "level_note": "Differential against the processor for breadth (sampled states), proof for the helper layer only. Trusted: Coq kernel + vm_compute, the CPU and the native runner, "
                   "the ISA transcription (validated against the CPU each run), the harness encoder/printer, Exec/Sem.v.",
 }
